@@ -68,7 +68,8 @@ Record body_oracle := mkBody {
   b_um_res : option err;   (* what the unmarshal function returns on the body for Request.Result *)
   b_um_req : option err;   (* ... for Request.Error *)
   b_um_com : option err;   (* ... for a new value of the client's common error type *)
-  b_write  : option err    (* what writing the body to the download target (SetOutput / SetOutputFile) returns *)
+  b_write  : option err;   (* what writing the body to the download target (SetOutput / SetOutputFile) returns *)
+  b_close  : option err    (* what closing the download target returns, when it is an io.Closer (the output file; None: not a closer / ok) *)
 }.
 
 (* Response.ToBytes *)
@@ -209,7 +210,7 @@ Inductive flavour := Fixed | Pinned.
 (* resp.Response = answer; auto-read (shared by roundTrip and the digest re-send) *)
 Definition receive (t : tout) (r : response) : response * option err * body_oracle :=
   match t with
-  | TFail e => (set_http false 0 None r, Some e, mkBody None None None None None None)
+  | TFail e => (set_http false 0 None r, Some e, mkBody None None None None None None None)
   | TResp s chk b =>
     let r1 := set_http true s chk r in
     (r1, None, b)
@@ -302,10 +303,15 @@ Fixpoint run_cli (fl : flavour) (cfg : config) (ms : list mw) (i : nat) (r : res
    assigns err before the deferred function runs) *)
 (* handleDownload: the body goes to the request's output - from the cache when it was read
    (a result target made parseResponseBody read it), else streamed from resp.Body *)
+Definition copy_result (b : body_oracle) (r : response) : option err :=     (* io.Copy(output, body) *)
+  if r_cached r then b_write b
+  else match b_read b with Some e => Some e | None => b_write b end.
+
+(* the output is closed afterwards; its close error is the download's error only when the copy
+   itself succeeded - a copy error is never replaced by the outcome of Close *)
 Definition handle_download (cfg : config) (b : body_oracle) (r : response) : option err :=
   if negb (r_present r) || negb (c_save cfg) then None
-  else if r_cached r then b_write b
-  else match b_read b with Some e => Some e | None => b_write b end.
+  else match copy_result b r with Some e => Some e | None => b_close b end.
 
 Definition round_trip_with (fl : flavour) (cfg : config) (a : attempt) (t : tout) : option response * option err * list event :=
   let r0 := fresh_resp in
